@@ -195,7 +195,8 @@ class Basis(np.ndarray):
             return
 
         self.btype = getattr(basis, 'btype', 'Custom')
-        self.labels = getattr(basis, 'labels', [f'$C_{{{i}}}$' for i in range(len(basis))])
+        # A new list: views and (deep) copies must not share the mutable labels with their source
+        self.labels = list(getattr(basis, 'labels', [f'$C_{{{i}}}$' for i in range(len(basis))]))
         self.d = getattr(basis, 'd', basis.shape[-1])
         self._sparse = None
         self._four_element_traces = None
